@@ -259,4 +259,15 @@ def r10_cdata_terminators(ctx):
         o["site"] = "scanner:" + o["site"]
         o["rule"] = "R10"
 
-RULES = [("R1", r1_trim_table), ("R2", r2_merge), ("R3", r3_expand), ("R4", r4_unknown_skipped), ("R5", r5_trimmer_in_sync), ("R6", r6_pieces_decoded_alike), ("R7", r7_skip_without_buffer), ("R8", r8_whitespace_notion), ("R9", r9_references), ("R10", r10_cdata_terminators)]
+def r11_attribute_spacing(ctx):
+    """"Spacing inside tags" must not matter: the attribute tokeniser's byte predicates know all of XML whitespace
+    (C11 R8 re-evaluated; a key followed by a tab or a line break before `=` is the same key)"""
+    import c11
+    n0 = len(ctx.obs)
+    c11.r8_byte_predicates(ctx)
+    for o in ctx.obs[n0:]:
+        o["site"] = "attributes:" + o["site"]
+        o["rule"] = "R11"
+
+
+RULES = [("R1", r1_trim_table), ("R2", r2_merge), ("R3", r3_expand), ("R4", r4_unknown_skipped), ("R5", r5_trimmer_in_sync), ("R6", r6_pieces_decoded_alike), ("R7", r7_skip_without_buffer), ("R8", r8_whitespace_notion), ("R9", r9_references), ("R10", r10_cdata_terminators), ("R11", r11_attribute_spacing)]
